@@ -170,6 +170,21 @@ class TypeGen:
         members = [n1, n2] + ([["Tuple", pre + [self.leaf()], None]] if r.random() < 0.3 else [])
         return a, ["AnyOf", members], "tail-escape"
 
+    def deep_tail_escape_pair(self, names):
+        """(l1|l2)[]  vs  [] | [l2, l2, ...rest] | [l1, ...rest] | [l1|l2, ...l1[]] (| a longer alternative): the escaping element
+        has to be tried at positions up to the longest prefix of ANY remaining alternative, not only the next one
+        (separating value: [l2, l1, l2])"""
+        r = self.r
+        base = [["String"], ["Number"], ["Boolean"], ["Null"]]
+        l1, l2 = r.sample(base, 2)
+        rest = ["AnyOf", [l1, l2]]
+        a = ["Array", rest]
+        members = [["Tuple", [], None], ["Tuple", [l2, l2], rest], ["Tuple", [l1], rest], ["Tuple", [rest], l1]]
+        if r.random() < 0.5: members.append(["Tuple", [l2, l1, l2], rest])       # then [l2, l1, l1, l2] separates
+        if r.random() < 0.3: members.append(["Tuple", [l2], None])
+        r.shuffle(members)
+        return a, ["AnyOf", members], "deep-tail-escape"
+
     def length_gap_pair(self, names):
         """a list type against a union of list types that covers some lengths and leaves a gap (or not):
         [p.., ...T[]]  vs  [p..] | [p.., T, T, ...T[]]   (separating value: [p.., t], unless the gap is filled)"""
@@ -252,6 +267,7 @@ class TypeGen:
         if r.random() < 0.06: return self.literal_cover_pair(names)
         if r.random() < 0.05: return self.list_intersection_pair(names)
         if r.random() < 0.06: return self.tail_escape_pair(names)
+        if r.random() < 0.04: return self.deep_tail_escape_pair(names)
         if r.random() < 0.06: return self.length_gap_pair(names)
         a = self.ty(3, names)
         q = r.random()
